@@ -592,6 +592,14 @@ impl ElementRaw {
                         }
                     }
                     ElementContent::CharacterData(cdata) => {
+                        // the value must also exist in the target version, e.g. enum items that were added in a later version
+                        if let Some(cdataspec) = self.elemtype.chardata_spec() {
+                            if !cdata.check_version_compatibility(cdataspec, target_version).0 {
+                                return Err(AutosarDataError::VersionIncompatibleData {
+                                    version: target_version,
+                                });
+                            }
+                        }
                         copy.content.push(ElementContent::CharacterData(cdata.clone()));
                     }
                 }
